@@ -855,7 +855,7 @@ class WSGIApp:
             "submodel_id": url_args["submodel_id"]
         }, force_external=True)
         if "path" in url_args:
-            redirect_url += url_args["path"] + "/"
+            redirect_url += "/" + url_args["path"]
         if request.query_string:
             # the query string may contain raw non-ASCII bytes; keep them percent-encoded
             redirect_url += "?" + urllib.parse.quote(request.query_string, safe="!$&'()*+,;=:@/?%~-._")
